@@ -48,7 +48,7 @@ def pair(ck):
         LPO.common_inv(c, dict(f=[0, 0], b=[0, 0], at=[0, 0], ab=[0, 0], fees=[z3.Int('fee_protocol'), z3.Int('fee_swap'), z3.Int('fee_burn')])) if False else None
         c.assume(z3.Int('fee_protocol') + z3.Int('fee_swap') + z3.Int('fee_burn') < E18)
         pf = it.mk(PN + 'pair::PoolFee', protocol_fee=LPO.fee(it, c.sym('fp', 128)), swap_fee=LPO.fee(it, c.sym('fs', 128)), burn_fee=LPO.fee(it, c.sym('fb', 128)))
-        msg = it.mkv(LPO.XM, 'UpdateConfig', owner=NONE(), fee_collector_addr=NONE(), pool_fees=SOME(pf), feature_toggle=NONE())
+        msg = it.mkv(LPO.XM, 'UpdateConfig', pool_fees=SOME(pf), **opts(it, [('owner', lambda: Str('mallory')), ('fee_collector_addr', lambda: Str('mallory')), ('feature_toggle', lambda: it.mk(PN + 'pair::FeatureToggle', withdrawals_enabled=False, deposits_enabled=True, swaps_enabled=False))]))
         return enter(it, 'terraswap_pair', 'execute', mk_env(it, 10**18), mk_info(ADDR(Str(None, sym=c.sym('caller'))), []), msg)
     n = 0
     for p in ck.explore(prog, upd, 'pair.update_config'):
@@ -79,7 +79,7 @@ def trio(ck):
     def upd(it):
         c = it.ctx; st = LT.setup_trio(it)
         pf = it.mk(LT.TM + 'PoolFee', protocol_fee=LT.tfee(it, c.sym('fp', 128)), swap_fee=LT.tfee(it, c.sym('fs', 128)), burn_fee=LT.tfee(it, c.sym('fb', 128)))
-        msg = it.mkv(LT.TXM, 'UpdateConfig', owner=NONE(), fee_collector_addr=NONE(), pool_fees=SOME(pf), feature_toggle=NONE(), amp_factor=NONE())
+        msg = it.mkv(LT.TXM, 'UpdateConfig', pool_fees=SOME(pf), amp_factor=NONE(), **opts(it, [('owner', lambda: Str('mallory')), ('fee_collector_addr', lambda: Str('mallory')), ('feature_toggle', lambda: it.mk(LT.TM + 'FeatureToggle', withdrawals_enabled=False, deposits_enabled=True, swaps_enabled=False))]))
         return enter(it, 'stableswap_3pool', 'execute', mk_env(it, 10**18, height=c.sym('height', 64)), mk_info('owner', []), msg)
     n = 0
     for p in ck.explore(prog, upd, 'trio.update_config'):
@@ -131,7 +131,7 @@ def vault(ck):
                 c.assume(z3.Implies(z3.BoolVal(bool(is_factory(it, shape))), z3.Int('vfee_burn') == 0))      # the stored config satisfies the rule before the update
             it.extra = dict(factory=(shape != 'cw20' and is_factory(it, shape)))
             vf = it.mk(VF, protocol_fee=LV.vfee(it, c.sym('fp', 128)), flash_loan_fee=LV.vfee(it, c.sym('fl', 128)), burn_fee=LV.vfee(it, c.sym('fb', 128)))
-            params = it.mk(LV.VN + 'UpdateConfigParams', flash_loan_enabled=NONE(), deposit_enabled=NONE(), withdraw_enabled=NONE(), new_owner=NONE(), new_vault_fees=SOME(vf), new_fee_collector_addr=NONE())
+            params = it.mk(LV.VN + 'UpdateConfigParams', new_vault_fees=SOME(vf), **opts(it, [('flash_loan_enabled', lambda: False), ('deposit_enabled', lambda: False), ('withdraw_enabled', lambda: False), ('new_owner', lambda: Str('mallory')), ('new_fee_collector_addr', lambda: Str('mallory'))]))
             return enter(it, 'vault', 'execute', mk_env(it, 10**18), mk_info('owner', []), it.mkv(LV.VX, 'UpdateConfig', params))
         n = 0
         for p in ck.explore(prog, upd, 'vault.update_config.' + shape.split('/')[0]):
@@ -168,7 +168,7 @@ def distributor(ck):
         c = it.ctx
         st = LD.setup_dist(it, 1, 1)
         c.assume(st['dur'] >= DAY)
-        msg = it.mkv(LD.FX, 'UpdateConfig', owner=NONE(), bonding_contract_addr=NONE(), fee_collector_addr=NONE(), grace_period=SOME(U64(c.sym('new_grace', 64))), distribution_asset=NONE(),
+        msg = it.mkv(LD.FX, 'UpdateConfig', grace_period=SOME(U64(c.sym('new_grace', 64))), **opts(it, [('owner', lambda: Str('mallory')), ('bonding_contract_addr', lambda: Str('mallory')), ('fee_collector_addr', lambda: Str('mallory')), ('distribution_asset', lambda: it.mkv(AI, 'NativeToken', denom=Str('uatom')))]),
                      epoch_config=SOME(it.mk(EM + 'EpochConfig', duration=U64(c.sym('new_duration', 64)), genesis_epoch=U64(c.sym('new_genesis', 64)))))
         it.extra = dict(st=st)
         return enter(it, 'fee_distributor', 'execute', mk_env(it, 10**18), mk_info('owner', []), msg)
@@ -206,7 +206,7 @@ def lair(ck):
         ck.oblige('C18.lair.instantiate.native_only', p, p.ok, 'only native bonding assets are accepted')
     def upd(it):
         c = it.ctx; LL.setup_lair(it, nrec=0, bob=False)
-        msg = it.mkv(LL.WL + 'ExecuteMsg', 'UpdateConfig', owner=NONE(), unbonding_period=NONE(), growth_rate=SOME(DEC(c.sym('new_growth', 128))), fee_distributor_addr=NONE())
+        msg = it.mkv(LL.WL + 'ExecuteMsg', 'UpdateConfig', growth_rate=SOME(DEC(c.sym('new_growth', 128))), **opts(it, [('owner', lambda: Str('mallory')), ('unbonding_period', lambda: U64(c.sym('new_period', 64))), ('fee_distributor_addr', lambda: Str('mallory'))]))
         return enter(it, 'whale_lair', 'execute', mk_env(it, 10**18), mk_info('owner', []), msg)
     n = 0
     for p in ck.explore(prog, upd, 'lair.update_config'):
@@ -226,8 +226,8 @@ def collector(ck):
         if p.ok: ck.oblige('C18.collector.instantiate.valid', p, fld(prog, p.world.storage['config'], 'take_rate').fields[0] >= E18, 'initial take rate below 1')
     def upd(it):
         c = it.ctx; C10.setup_coll(it)
-        msg = it.mkv(C10.CX, 'UpdateConfig', owner=NONE(), pool_router=NONE(), fee_distributor=NONE(), pool_factory=NONE(), vault_factory=NONE(),
-                     take_rate=SOME(DEC(c.sym('new_rate', 128))), take_rate_dao_address=NONE(), is_take_rate_active=SOME(True))
+        msg = it.mkv(C10.CX, 'UpdateConfig', take_rate=SOME(DEC(c.sym('new_rate', 128))),
+                     **opts(it, [('owner', lambda: Str('mallory')), ('pool_router', lambda: Str('mallory')), ('fee_distributor', lambda: Str('mallory')), ('pool_factory', lambda: Str('mallory')), ('vault_factory', lambda: Str('mallory')), ('take_rate_dao_address', lambda: Str('mallory')), ('is_take_rate_active', lambda: c.symbool('new_active'))]))
         return enter(it, 'fee_collector', 'execute', mk_env(it, 10**18), mk_info('owner', []), msg)
     n = 0
     for p in ck.explore(prog, upd, 'collector.update_config'):
@@ -241,7 +241,7 @@ def collector(ck):
 def main():
     ck = Check('C18')
     pair(ck); trio(ck); vault(ck); distributor(ck); lair(ck); collector(ck)
-    ck.bounds.update(parameters='every numeric parameter fully symbolic (18-decimal exact)', denoms='token-factory rule decided over the denom shapes %s + cw20' % DENOM_SHAPES)
+    ck.bounds.update(parameters='every numeric parameter fully symbolic (18-decimal exact); in updates every other optional field independently present or absent (power set up to five fields, otherwise none / each alone / all)', denoms='token-factory rule decided over the denom shapes %s + cw20' % DENOM_SHAPES)
     ck.outside += ['factory-mediated updates: the factories only forward the message to the child, whose own obligation applies (forwarding shape is part of C19)',
                    'the epoch manager stores its epoch duration without any validator: no bound is documented for that contract, so none is claimed (observation)',
                    'trio amplification ramps: C04.ramp.* (C18.trio.ramp.valid is discharged there)']
